@@ -93,6 +93,11 @@ func (b *CombinationColexIterator) Next() bool {
 		return true
 	}
 
+	//The last subset is {n-k, ..., n-1}. We check for it before the loop below resets the small elements so that Next keeps returning false.
+	if b.data[0] == b.n-b.k {
+		return false
+	}
+
 	for j := 0; j < b.k-1; j++ {
 		if b.data[j] < b.data[j+1]-1 {
 			b.data[j]++
@@ -102,9 +107,6 @@ func (b *CombinationColexIterator) Next() bool {
 		b.data[j] = j
 	}
 
-	if b.data[b.k-1] == b.n-1 {
-		return false
-	}
 	b.data[b.k-1]++
 	b.j = b.k - 2
 	return true
